@@ -12,7 +12,7 @@ class XMatchControlConstructionTokenTranslator(AbstractTranslator):
         lookup_value, lookup_array, match_mode, search_mode \
             = ExpressionTokenTranslator.translate(token.lookup_value, excel, context), \
               MatrixOfCellIdentifiersTokenTranslator.translate(token.lookup_array, excel, context), \
-              ExpressionTokenTranslator.translate(token.match_mode, excel, context), \
+              ExpressionTokenTranslator.translate(token.match_mode, excel, context) if token.match_mode else '0', \
               ExpressionTokenTranslator.translate(token.search_mode, excel, context) if token.search_mode else True
 
         return context.set_sub_cell(token.in_cell, f'self._xmatch({lookup_value}, {lookup_array}, {match_mode}, {search_mode})')
